@@ -257,14 +257,15 @@ def graph_scope(ctx, what):
         for h, w in graphcap.grid_shapes(12 if ctx.thorough else 9):
             out.append(("grid", h * w, graphcap.grid_edges(h, w)))
     else:
-        big = ctx.thorough or getattr(ctx, "deep", False)
+        deep = getattr(ctx, "deep", False)
+        big = ctx.thorough
         for n, es in graphcap.all_multigraphs(4, 5):
             out.append(("ex", n, es))
-        if big:
-            for n, es in graphcap.all_multigraphs(5, 5):
+        if big or deep:
+            for n, es in graphcap.all_multigraphs(5, 5 if big else 4):
                 if n == 5:
                     out.append(("ex5", n, es))
-        for _ in range(400 if big else 120):
+        for _ in range(400 if big else (200 if deep else 120)):
             n = 5 if rng.random() < 0.7 else 6
             m = rng.randint(3, 8 if big else 7)
             es = []
@@ -281,7 +282,7 @@ def graph_scope(ctx, what):
 def frame_shapes(ctx, what):
     if what == "tie":
         return [(h, w) for h in range(0, 4) for w in range(0, 4)] + [(1, 5), (5, 1), (0, 6), (4, 2)]
-    big = ctx.thorough or getattr(ctx, "deep", False)
+    big = ctx.thorough
     shapes = [(0, 0), (0, 1), (1, 0), (0, 3), (3, 0), (1, 1), (1, 2), (2, 1), (1, 3), (3, 1), (2, 2), (2, 3), (3, 2)]
     if big:
         shapes += [(1, 4), (3, 3)]
@@ -506,7 +507,10 @@ def post_frame(kind, prim, h, w, shape_out):
         f = G.active_edges_single_cycle if kind == "cyc" else G.active_edges_single_path
         p = f(s, fr, use_graph_primitive=prim)
         shape_out.append(tuple(p.shape))
-        flat = [p[y, x] for y in range(h + 1) for x in range(w + 1)]
+        if tuple(p.shape) == (h + 1, w + 1):
+            flat = [p[y, x] for y in range(h + 1) for x in range(w + 1)]   # entry of lattice point (y, x)
+        else:
+            flat = list(p.data)                                            # reported by the shape check below
         return list(fr.horizontal.data) + list(fr.vertical.data), flat
     return post
 
@@ -527,14 +531,22 @@ def frame_patterns(ctx, n, edges, limit):
 
 
 def search(ctx):
-    big = ctx.thorough or getattr(ctx, "deep", False)
+    big = ctx.thorough
+    deep = getattr(ctx, "deep", False)
     spec_rows = []
+
+    def enough():
+        # a broken tie/proof already triggered the deep search: a handful of concrete failing inputs is enough
+        return deep and not big and len(ctx.violations) >= 5
+
     modes = [("cyc", False, "cycle", graphcap.is_single_cycle), ("cyc", True, "cycle-prim", graphcap.is_single_cycle),
              ("path", True, "path-prim", graphcap.is_single_path)]
     for (tag, n, es) in graph_scope(ctx, "search"):
         key0 = "n%d:%s" % (n, ",".join("%d-%d" % e for e in es))
+        if enough():
+            break
         for (kind, prim, label, oracle) in modes:
-            if label != "cycle" and tag == "rnd" and not big and ctx.rng.random() < 0.5:
+            if label != "cycle" and tag == "rnd" and not (big or deep) and ctx.rng.random() < 0.5:
                 continue
             r = vlib.guarded(Posted, post_graph(kind, prim, n, es))
             if r[0] == "err":
@@ -546,8 +558,10 @@ def search(ctx):
                            spec_rows if label == "cycle" else None)
     for (h, w) in frame_shapes(ctx, "search"):
         n, es = lattice(h, w)
+        if enough():
+            break
         for (kind, prim, label, oracle) in modes:
-            if (h + 1) * (w + 1) > 9 and label != "cycle" and not big:
+            if (h + 1) * (w + 1) > 9 and label != "cycle" and not (big or deep):
                 continue
             shp = []
             r = vlib.guarded(Posted, post_frame(kind, prim, h, w, shp))
@@ -560,7 +574,7 @@ def search(ctx):
                 ctx.violation("%s-shape:%s" % (label, key0), "result shape is not (height+1, width+1)",
                               {"helper": label, "frame": [h, w], "shape": shp})
                 continue
-            pats = frame_patterns(ctx, n, es, 70000 if big else 5000)
+            pats = frame_patterns(ctx, n, es, 70000 if big else (10000 if deep else 5000))
             ctx.count("search:%s:frame" % label)
             check_patterns(ctx, "frame-" + label, key0, r[1], n, es, pats, oracle, "frame %dx%d" % (h, w))
     # the Coq specification (extracted single_cycle_b / single_path_b / visited) against the same oracles
